@@ -390,12 +390,14 @@ theorem sizeHint_spec (m : Mode) {it : Rows} {k n : Nat} (h : it.WF k n) : it.si
   | zero =>
     by_cases hc : it.cols = 0
     · simp [sizeHint, hc]
-    · simp [sizeHint, hc, uadd_ok m _ _ h.stride_word, h.zero_len]
+    · have hd0 : it.cols + it.skip ≠ 0 := by omega
+      simp [sizeHint, hc, uadd_ok m _ _ h.stride_word, h.zero_len, udiv_ok _ _ hd0, urem_ok _ _ hd0]
   | succ r =>
     have hl := h.succ_len
     have hc : 0 < it.cols := h.cols_pos (by omega)
     have hc' : ¬ it.cols = 0 := by omega
-    simp only [sizeHint, if_neg hc', uadd_ok m _ _ h.stride_word, ok_bind, pure_eq, hl]
+    have hd0 : it.cols + it.skip ≠ 0 := by omega
+    simp only [sizeHint, if_neg hc', uadd_ok m _ _ h.stride_word, ok_bind, pure_eq, hl, udiv_ok _ _ hd0, urem_ok _ _ hd0]
     congr 1
     have hd : 0 < it.cols + it.skip := by omega
     by_cases hs : it.skip = 0
@@ -823,10 +825,13 @@ theorem nthBack_spec (m : Mode) {it : Col} {k n : Nat} (h : it.WF k n) (j : Nat)
 
 theorem sizeHint_spec (m : Mode) {it : Col} {k n : Nat} (h : it.WF k n) : it.sizeHint m = .ok k := by
   cases k with
-  | zero => simp [sizeHint, uadd_ok m _ _ h.stride_word, h.zero_len]
+  | zero =>
+    have hd0 : 1 + it.skip ≠ 0 := by omega
+    simp [sizeHint, uadd_ok m _ _ h.stride_word, h.zero_len, udiv_ok _ _ hd0, urem_ok _ _ hd0]
   | succ r =>
     have hl := h.succ_len
-    simp only [sizeHint, uadd_ok m _ _ h.stride_word, ok_bind, pure_eq, hl]
+    have hd0 : 1 + it.skip ≠ 0 := by omega
+    simp only [sizeHint, uadd_ok m _ _ h.stride_word, ok_bind, pure_eq, hl, udiv_ok _ _ hd0, urem_ok _ _ hd0]
     congr 1
     have hd : 0 < 1 + it.skip := by omega
     by_cases hs : it.skip = 0
